@@ -159,6 +159,15 @@ var idMaps = [][2]string{
 	{"\\u003c", "\\u0026"},     // a literal backslash before u003c: the text of a JSON escape
 	{" ", "\n"},                // white space at the edges
 	{"./../", "//.."},          // dot segments and doubled slashes: an id is not a path to be cleaned
+	{"#numeric", ""},           // numbers, several of them equal as numbers ("7", "07", "007"): see numericIDs
+}
+
+// numericIDs: ids that are numbers, several of them the same number written differently
+var numericIDs = map[string]string{"x": "7", "y": "07", "z": "007", "u": "10", "v": "9", "w": "010"}
+
+func (v dVariant) numeric() bool {
+	m := idMaps[v.IDMap%len(idMaps)]
+	return m[0] == "#numeric"
 }
 
 func (v dVariant) id(tok string) string {
@@ -166,6 +175,12 @@ func (v dVariant) id(tok string) string {
 		return ""
 	}
 	m := idMaps[v.IDMap%len(idMaps)]
+	if v.numeric() {
+		if n, ok := numericIDs[tok]; ok {
+			return n
+		}
+		return "0" + tok
+	}
 	return m[0] + tok + m[1]
 }
 
@@ -173,6 +188,17 @@ func (v dVariant) tok(id string) string {
 	m := idMaps[v.IDMap%len(idMaps)]
 	if id == "" {
 		return ""
+	}
+	if v.numeric() {
+		for t, n := range numericIDs {
+			if n == id {
+				return t
+			}
+		}
+		if strings.HasPrefix(id, "0") {
+			return id[1:]
+		}
+		return "?" + fmt.Sprintf("%x", id)
 	}
 	if strings.HasPrefix(id, m[0]) && strings.HasSuffix(id, m[1]) && len(id) >= len(m[0])+len(m[1]) {
 		return id[len(m[0]) : len(id)-len(m[1])]
@@ -418,6 +444,13 @@ func (w *docWorld) build(d dDoc) (*jsonapi.Document, *jsonapi.URL, []jsonapi.Res
 	url.Params.Fields = map[string][]string{}
 	for t, names := range d.Fields {
 		url.Params.Fields[t] = append([]string{}, names...)
+	}
+	if w.v.Meta%3 == 1 && url.Params.Filter == nil && url.Params.FilterLabel == "" {
+		// a filter built by the handler itself (lists of ids as Go slices, not in any order), as Range takes it
+		url.Params.Filter = &jsonapi.Filter{Op: "and", Val: []*jsonapi.Filter{
+			{Field: "m", Op: "has", Val: "u"},
+			{Op: "or", Val: []*jsonapi.Filter{{Field: "id", Op: "in", Val: []string{"u3", "u1", "u2"}}, {Field: "a", Op: "=", Val: "x"}}},
+		}}
 	}
 	return doc, url, live
 }
@@ -732,7 +765,24 @@ func snapshot(live []jsonapi.Resource, url *jsonapi.URL) string {
 	for _, t := range sortedKeys(url.Params.Fields) {
 		fmt.Fprintf(&b, "F[%s]=%v;", t, sortedIDs(url.Params.Fields[t]))
 	}
-	fmt.Fprintf(&b, "S=%v;P=%v;", url.Params.SortingRules, url.Params.Page)
+	fmt.Fprintf(&b, "S=%v;P=%v;L=%q;I=%d;", url.Params.SortingRules, url.Params.Page, url.Params.FilterLabel, len(url.Params.Include))
+	// the filter, value lists in the order the caller gave them (nothing in the property lets them move)
+	var walk func(f *jsonapi.Filter)
+	walk = func(f *jsonapi.Filter) {
+		if f == nil {
+			return
+		}
+		fmt.Fprintf(&b, "f(%s,%s,%s", f.Field, f.Op, f.Col)
+		if kids, ok := f.Val.([]*jsonapi.Filter); ok {
+			for _, k := range kids {
+				walk(k)
+			}
+		} else {
+			fmt.Fprintf(&b, ",%#v", f.Val)
+		}
+		b.WriteString(")")
+	}
+	walk(url.Params.Filter)
 	return b.String()
 }
 
